@@ -18,6 +18,7 @@ What is assumed here (hand-written, checked by the correspondence run, not prove
     reports any exception raised by the real functions).
 -/
 import Mathy.Model.Expr
+import Mathy.Model.Util
 namespace Mathy.Py
 
 /-- a live node object inside its tree -/
@@ -116,6 +117,48 @@ def numEq (v : Option Rat) (c : Int) : Bool :=
   match v with
   | some q => decide (q = (c : Rat))
   | none => false
+
+/-! ### util.py as seen from the rule classifiers
+
+`get_term_ex` and `factor_add_terms_ex` are NOT translated: they are the hand-written model
+functions `getTermEx` / `factorAddTermsEx` (tied to the code by the correspondence runs of C01,
+C08 and C16).  The classifiers that call them are translated with these as externals. -/
+
+/-- `get_term_ex(ref)`; `None` for `None` -/
+def Ref.get_term_ex : Ref → Option TermEx
+  | some ⟨k, e⟩ => getTermEx (parentIs .pow k) e
+  | none => none
+
+/-- `term.variable` (of a `TermEx` or `None`) -/
+def termVar (t : Option TermEx) : Option Char := t.bind (·.var)
+/-- `term.exponent` -/
+def termExp (t : Option TermEx) : Option Rat := t.bind (·.exp)
+/-- `term.coefficient` -/
+def termCoef (t : Option TermEx) : Option Rat := t.bind (·.coef)
+
+/-- `factor_add_terms_ex(l, r)`: a `FactorResult` or `False` -/
+def pyFactorAddTermsEx (l r : Option TermEx) : Option FactorResult :=
+  match l, r with
+  | some l, some r => factorAddTermsEx l r
+  | _, _ => none
+
+def frBest (f : Option FactorResult) : Option Rat := f.map (·.best)
+def frVar (f : Option FactorResult) : Option Char := f.bind (·.comVar)
+def frExp (f : Option FactorResult) : Option Rat := f.bind (·.comExp)
+
+/-- truth value of an optional number: `None` and `0` are falsy -/
+def numTruthy (v : Option Rat) : Bool :=
+  match v with
+  | some q => decide (q ≠ 0)
+  | none => false
+
+/-- components of an optional `(name, term, term)` tuple after it was tested against `None` -/
+def tupName (t : Option (String × Option TermEx × Option TermEx)) : String :=
+  match t with | some x => x.1 | none => ""
+def tupLeft (t : Option (String × Option TermEx × Option TermEx)) : Option TermEx :=
+  match t with | some x => x.2.1 | none => none
+def tupRight (t : Option (String × Option TermEx × Option TermEx)) : Option TermEx :=
+  match t with | some x => x.2.2 | none => none
 
 /-- `"a" <= c` on one-character strings -/
 def chLe (a b : Char) : Bool := decide (a ≤ b)
